@@ -231,6 +231,49 @@ Section Tie.
     destruct (partial_at N (diff_component N norm o v) p); reflexivity.
   Qed.
 
+  (** ** the entry points: Expression.at, get_the_single_variable_name, Point.coordinate *)
+  Lemma single_name_tied : forall e,
+    meth gen_route_fn_get_the_single_variable_name RVNone [] [RVE e; RVStr ""]
+    = match the_single_variable_name e with
+      | Some v => Val (RVName v, [])
+      | None => raises
+      end.
+  Proof.
+    intros e. unfold meth, rmethod, the_single_variable_name. cbn -[var_names].
+    destruct (var_names e) as [|x [|y l]]; reflexivity.
+  Qed.
+
+  Lemma Expression_at_point_tied : forall e p,
+    meth gen_route_Expression_at (RVE e) [] [RVPoint p] = (x <- eval N p e ;; Val (RVN x, [])).
+  Proof. intros e p. unfold meth, rmethod. opq. destruct (eval N p e); reflexivity. Qed.
+
+  Lemma Expression_at_number_tied : forall e x,
+    meth gen_route_Expression_at (RVE e) [] [RVN x]
+    = match at_number N e x with
+      | Some o => (y <- o ;; Val (RVN y, []))
+      | None => raises
+      end.
+  Proof.
+    intros e x. unfold meth, rmethod, at_number. opq.
+    destruct (the_single_variable_name e) as [v|]; opq; [|reflexivity].
+    destruct (eval N [(v, x)] e); reflexivity.
+  Qed.
+
+  Lemma point_on_number_line_tied : forall v x,
+    meth gen_route_fn_point_on_number_line RVNone [] [RVName v; RVN x] = Val (RVPoint [(v, x)], []).
+  Proof. reflexivity. Qed.
+
+  Definition fields_point (p : point T) : rfields := [("_coordinates", dictN p)].
+
+  Lemma Point_coordinate_tied : forall (p : point T) (var : rval) v,
+    get_name var = Val v ->
+    meth gen_route_Point_coordinate (RVPoint p) (fields_point p) [var]
+    = (c <- coordinate p v ;; Val (RVN c, fields_point p)).
+  Proof.
+    intros p var v Hv. unfold meth, rmethod, fields_point, coordinate, dictN. opq. rewrite Hv. opq.
+    rewrite dict_find_N. destruct (lookup v p); reflexivity.
+  Qed.
+
   (** ** the default values of the optional parameters, as the object model assumes them *)
   Lemma defaults_tied :
     gen_route_defaults =
